@@ -123,3 +123,40 @@ def truthy(ty, val):
     if p in ('list', 'map', 'set'):
         return len(val) > 0
     return True
+
+
+# ---- the same program inside a REPL session -----------------------------------------------------------------------------
+PRELUDES = [
+    ['PUSH int 1 ; DIP { PUSH string "x" ; FAILWITH }'],                      # fails with one item protected
+    ['PUSH int 1 ; PUSH int 2 ; PUSH int 3 ; DIP 2 { UNIT ; FAILWITH }'],       # fails with two items protected
+    ['PUSH int 1 ; DIG 1'], ['PUSH int 1 ; PUSH int 2 ; DUP 3'],                # fail inside protect/restore of DIG / DUP n
+    ['UNIT ; FAILWITH'], ['PUSH nat 1 ; PUSH string "a" ; ADD'],                # plain failures
+    ['PUSH int 5 ; DROP'], ['PUSH int 5', 'DROP'],                              # successful cells that clean up after themselves
+    ['PUSH int 1 ; DIP { DIP { UNIT ; FAILWITH } }', 'PUSH int 7 ; DROP'],
+]
+
+
+def run_session(code, env, prelude):
+    """`code` (a Micheline sequence) executed by `Interpreter.execute` as one cell of a REPL session whose earlier cells
+    (`prelude`: failing ones are rolled back, the others leave an empty stack) must not influence it.
+    Same result shape as run_real."""
+    from pytezos.michelson.format import micheline_to_michelson
+    from pytezos.michelson.micheline import MichelsonRuntimeError
+    from pytezos.michelson.repl import Interpreter
+    interp = Interpreter()
+    c = interp.context
+    c.amount, c.balance, c.now, c.level = env['amount'], env['balance'], env['now'], env['level']
+    c.sender, c.source, c.address, c.chain_id = env['sender'], env['source'], env['self'], env['chain_id']
+    c.total_voting_power, c.min_block_time = env.get('total_voting_power', 0), env.get('min_block_time', 1)
+    for cell in prelude:
+        interp.execute(cell)
+    if interp.stack.items:
+        return 'err', f'prelude left {len(interp.stack.items)} items'
+    text = ' ; '.join(micheline_to_michelson(ins, inline=True) for ins in code) if isinstance(code, list) else micheline_to_michelson(code, inline=True)
+    r = interp.execute(text)
+    if r.error is not None:
+        e = r.error
+        if isinstance(e, MichelsonRuntimeError) and e.args[-2:-1] == ('FAILWITH',):
+            return 'failed', e.args[-1]
+        return 'err', ' -> '.join(map(str, e.args))[:300]
+    return 'ok', [(ty_strip(x.as_micheline_expr()), canon(x)) for x in interp.stack.items]
